@@ -118,7 +118,14 @@ fn wide_pass(thorough: bool, acc: &mut Acc) -> Vec<u32> {
                 assert!(seen.iter().all(|&b| b), "not a permutation: {oname}");
                 acc.perms_differing_order += 1;
                 let spec = TlSpec { kfs: order.iter().map(|&k| base_spec.kfs[k].clone()).collect(), ..base_spec.clone() };
-                let tl = spec.build();
+                let tl = if oi % 2 == 0 {
+                    let cfg = spec.builder();
+                    let t = cfg.clone().delay_seconds(th.delay).build();
+                    drop(cfg);
+                    t
+                } else {
+                    spec.build()
+                };
                 let mut tls = tl.clone();
                 tls.start_with(&vs);
                 acc.timelines += 1;
@@ -221,7 +228,16 @@ pub fn run(run: Run) -> ! {
                 let spec = TlSpec { kfs: perm.iter().map(|&j| asc[j].clone()).collect(), ..base_spec.clone() };
                 let rank = (n as u64) << 48 | (pi as u64) << 24 | (i as u64 & 0xffffff);
                 let Ok((tl, tls)) = std::panic::catch_unwind(std::panic::AssertUnwindSafe(|| {
-                    let tl = spec.build();
+                    // every other permutation is built from a clone of the configuration while the original
+                    // configuration is still alive (a template configuration reused for several timelines)
+                    let tl = if pi % 2 == 1 {
+                        let cfg = spec.builder();
+                        let t = cfg.clone().build();
+                        drop(cfg);
+                        t
+                    } else {
+                        spec.build()
+                    };
                     let mut tls = tl.clone();
                     tls.start_with(&vs);
                     (tl, tls)
@@ -277,7 +293,7 @@ pub fn run(run: Run) -> ! {
     cov.insert("traces_validated_against_impl".into(), json!(acc.evals));
     cov.insert("evaluations".into(), json!(acc.evals));
     cov.insert("distinct_nontrivial".into(), json!(acc.perms_differing_order));
-    cov.insert("rule".into(), json!(format!("every subset of 1..={nmax} distinct positions from {{0,1/8,..,1}} and from a dense grid {{0,.125,.126,.129,.131,.5,.501,.999,1}} (positions closer than 1%), and - for up to 6 keyframes - from a grid with positions outside [0,1] {{-.5,0,.25,.5,.75,1,1.25,1.5,3}} x {npat} (+{}) content patterns (property subsets, per-keyframe easings) x ALL permutations of the insertion order (timing configuration cycled over the 6 of Theta) x {{plain, start_with}} x time grid; plus a WIDE family (2^j+1 keyframes, counts under wide_family_keyframe_counts, two property patterns, two timings) inserted in six structured orders (reversed, rotated, even-then-odd, bit-reversed, one adjacent swap, blocks of 7 reversed) at every keyframe position and segment midpoint; oracle: values bit-identical and metadata identical to the ascending-order build; non-trivial = non-identity permutations checked", (npat / 2).max(2))));
+    cov.insert("rule".into(), json!(format!("every subset of 1..={nmax} distinct positions from {{0,1/8,..,1}} and from a dense grid {{0,.125,.126,.129,.131,.5,.501,.999,1}} (positions closer than 1%), and - for up to 6 keyframes - from a grid with positions outside [0,1] {{-.5,0,.25,.5,.75,1,1.25,1.5,3}} x {npat} (+{}) content patterns (property subsets, per-keyframe easings) x ALL permutations of the insertion order (timing configuration cycled over the 6 of Theta) x {{plain, start_with}} x time grid; plus a WIDE family (2^j+1 keyframes, counts under wide_family_keyframe_counts, two property patterns, two timings) inserted in six structured orders (reversed, rotated, even-then-odd, bit-reversed, one adjacent swap, blocks of 7 reversed) at every keyframe position and segment midpoint; every other permuted timeline is built from a clone of its configuration while the original is alive; oracle: values bit-identical and metadata identical to the ascending-order build; non-trivial = non-identity permutations checked", (npat / 2).max(2))));
     cov.insert("out_of_range_items_skipped_because_the_ascending_build_panics".into(), json!(acc.skipped_base_panics));
     cov.insert("exhaustive".into(), json!(true));
     cov.insert("distinct_observed_outcomes_capped".into(), json!(acc.outcomes.len()));
